@@ -40,6 +40,8 @@ FiredNow(e) == {tp.id : tp \in Matching(e.ev, Fn(e), e.line)}
 (* closed by any later event of its own thread, and must be closed when the invocation that opened it ends.   *)
 ItemIdx(pair) == {i \in 1..Len(items) : items[i].tp = pair[1] /\ items[i].openEv = pair[2]}
 ClosedIdx(e) == UNION {ItemIdx(e.closed[k]) : k \in 1..Len(e.closed)}
+(* how often span i was closed during the event (a span closed twice is listed twice) *)
+Closes(e, i) == Cardinality({k \in 1..Len(e.closed) : i \in ItemIdx(e.closed[k])})
 SpanTps(e) == {tp \in Matching(e.ev, Fn(e), e.line) : tp.span # "none"}
 
 Apply(e, inv) ==
@@ -52,7 +54,7 @@ Apply(e, inv) ==
        /\ items' = [i \in 1..(base + n) |->
                        IF i <= base
                          THEN IF i \in ClosedIdx(e)
-                                THEN [items[i] EXCEPT !.closed = @ + 1, !.closer = t, !.closerGen = gen[t]]
+                                THEN [items[i] EXCEPT !.closed = @ + Closes(e, i), !.closer = t, !.closerGen = gen[t]]
                                 ELSE items[i]
                          ELSE [tp |-> ord[i - base].id, thr |-> t, gen |-> gen[t], inv |-> inv, openEv |-> nEv + 1,
                                closed |-> 0, closer |-> t, closerGen |-> 0]]
